@@ -1,4 +1,4 @@
-import ChythonModel.Proofs.C09Bits
+import ChythonModel.Proofs.C09Api
 /-!
 # C09 — compiled (bit-mask) matcher ≡ reference matcher: property theorems
 
@@ -61,5 +61,102 @@ theorem isotope_window :
     ∀ r ∈ ChythonModel.Gen.periodicTable,
       (∀ k ∈ r.dist, r.mdl ≤ k.1 + 8 ∧ k.1 ≤ r.mdl + 8) ∧ r.qmdl = some r.mdl ∧ r.qz = some r.z := by
   decide +kernel
+
+
+/-- `QueryElement.mdl_isotope` equals `Element.mdl_isotope` for every atomic number (both lookups of the regenerated table) -/
+theorem mdl_tables_agree (z : Nat) : qmdlOf z = mdlOf z :=
+  mdl_tables_agree_gen ChythonModel.Gen.periodicTable (fun r hr => (isotope_window r hr).2) z
+
+/-- `anyMetal_mask_table`: the two literal `AnyMetal` masks accept, through the transfer-bit scheme, exactly the elements that
+    the reference `AnyMetal.__eq__` accepts (`not is_forming_single_bonds and not noble`, regenerated flags), with Lv/Ts/Og read
+    as Lv. (Found false for radon on the original literal: repo fix dd455ec.) -/
+theorem anyMetal_mask_table : ∀ z ∈ List.range' 1 118, elemAcc (qMetalV1, qMetalV2) z = !notMetal (capS z) :=
+  elemAcc_metal
+
+/-! ## encoders are total and fit 64 bits on the documented domain -/
+
+/-- a molecule atom of the documented domain (`ADom`: Z 1…118, hybridisation 1…4, isotope within −8…+8 of `mdl`, charge −4…4,
+    H ≤ 4 (unknown counted as 0), neighbours / heteroatoms ≤ 14, ring sizes 3…65) is encoded without exception into four words < 2^64 -/
+theorem encAtom_total (mdl : Nat) (a : MAtom) (ha : ADom mdl a) :
+    encAtom mdl a = .ok (atomWords mdl a) ∧ (atomWords mdl a).v1 < 2 ^ 64 ∧ (atomWords mdl a).v2 < 2 ^ 64 ∧
+      (atomWords mdl a).v3 < 2 ^ 64 ∧ (atomWords mdl a).v4 < 2 ^ 64 := by
+  have h := (atom_ok mdl a ha).2
+  simp only [Words.fit, Bool.and_eq_true] at h
+  exact ⟨encAtom_ok mdl a ha, of_decide_eq_true h.1.1.1, of_decide_eq_true h.1.1.2, of_decide_eq_true h.1.2, of_decide_eq_true h.2⟩
+
+/-- a query atom of the documented domain (`QDom`), with or without a query bond, is encoded without exception into four masks < 2^64
+    — for every isotope value (outside the window the mask simply has no isotope bit: repo fix f3c1cf5) -/
+theorem encQAtom_total (qmdl : Nat) (q : QAtom) (b : Option QBond) (hq : QDom q) :
+    encQAtom qmdl q b = .ok (qWords qmdl q b) ∧ (qWords qmdl q b).v1 < 2 ^ 64 ∧ (qWords qmdl q b).v2 < 2 ^ 64 ∧
+      (qWords qmdl q b).v3 < 2 ^ 64 ∧ (qWords qmdl q b).v4 < 2 ^ 64 := by
+  have h := (qatom_ok qmdl q b hq).2
+  simp only [Words.fit, Bool.and_eq_true] at h
+  exact ⟨encQAtom_ok qmdl q b hq, of_decide_eq_true h.1.1.1, of_decide_eq_true h.1.1.2, of_decide_eq_true h.1.2, of_decide_eq_true h.2⟩
+
+example : ADom 12 { z := 6, isotope := some 13, charge := -1, neighbors := 3, hybridization := 4, ringSizes := [5, 6], implH := none,
+                    heteroatoms := 1 } := by
+  constructor <;> simp [isoTruthy, hOr, ChythonModel.Gen.Bits.sHNone] <;> omega
+
+example : QDom { kind := .list [6, 7, 118], charge := 1, neighbors := [2, 3], hybridization := [4], ringSizes := [5, 6], implH := [0, 1] } := by
+  constructor <;> simp <;> omega
+
+/-! ## the mask test is the reference comparison -/
+
+/-- `mask_eq_pyEq` (general form, first atom of a component): for every query atom and molecule atom of the documented domain the
+    first-atom test of `_isomorphism.pyx` on the encoded words (`rootOk`) equals `query_atom == atom` (C08's `pyEq`) **of the pair
+    as the layout sees it** (`normQ`/`normA`: Lv/Ts/Og are one element, an unknown hydrogen count is 0).
+    `hm`: when the query carries an isotope and the element is accepted, both sides use the same `mdl_isotope`
+    (`mdl_tables_agree` for one element). -/
+theorem mask_eq_pyEq_norm (mdl qmdl : Nat) (q : QAtom) (a : MAtom) (cq : CQAtom) (ca : CAtom)
+    (hcq : (⟨cq.m1, cq.m2, cq.m3, cq.m4⟩ : Words) = qWords qmdl q none)
+    (hca : (⟨ca.b1, ca.b2, ca.b3, ca.b4⟩ : Words) = atomWords mdl a)
+    (hq : QDom q) (ha : ADom mdl a)
+    (hm : qIso q.kind ≠ none → kindAccepts q.kind a.z = true → qmdl = mdl) :
+    rootOk cq ca = pyEq (normQ q) (normA a) := by
+  rw [← mask_root_norm mdl qmdl q a hq ha hm, ← hcq, ← hca]; rfl
+
+/-- `mask_eq_pyEq` (general form, later atoms, bond incl. ring bit): the next-atom test on the bond word
+    (`bits1` of the candidate | order bit | ring bit) equals `query_atom == atom and query_bond == bond` -/
+theorem mask_bond_eq_pyEq_norm (mdl qmdl : Nat) (q : QAtom) (qb : QBond) (a : MAtom) (b : MBond) (cq : CQAtom) (ca : CAtom)
+    (hcq : (⟨cq.m1, cq.m2, cq.m3, cq.m4⟩ : Words) = qWords qmdl q (some qb))
+    (hca : (⟨ca.b1, ca.b2, ca.b3, ca.b4⟩ : Words) = atomWords mdl a)
+    (hq : QDom q) (ha : ADom mdl a) (hb : BDom qb b)
+    (hm : qIso q.kind ≠ none → kindAccepts q.kind a.z = true → qmdl = mdl) :
+    nextOk cq (bondWord ca.b1 b) ca = (pyEq (normQ q) (normA a) && bondEq qb b) := by
+  have h1 : ca.b1 = atomV1 a := congrArg Words.v1 hca
+  rw [← mask_next_norm mdl qmdl q qb a b hq ha hb hm, ← hcq, ← hca, h1]; rfl
+
+/-- `mask_eq_pyEq` on the documented domain **D**: no clash on the shared Lv/Ts/Og bit (`NoHeavyClash`), hydrogen count known or
+    unconstrained (`HKnown`), everything else as `QDom`/`ADom`, `mdl_isotope` from the periodic table:
+    the accelerated first-atom test is exactly `query_atom == atom`. -/
+theorem mask_eq_pyEq (q : QAtom) (a : MAtom) (mdl qmdl : Nat)
+    (hmdl : mdlOf a.z = some mdl) (hqmdl : qmdlFor q = .ok qmdl)
+    (hq : QDom q) (ha : ADom mdl a) (hc : NoHeavyClash q a) (hh : HKnown q a) :
+    rootOk ⟨(qWords qmdl q none).v1, (qWords qmdl q none).v2, (qWords qmdl q none).v3, (qWords qmdl q none).v4, 0, 0, 0, 0, 0⟩
+           ⟨(atomWords mdl a).v1, (atomWords mdl a).v2, (atomWords mdl a).v3, (atomWords mdl a).v4, 0, 0, 0⟩ = pyEq q a := by
+  rw [mask_eq_pyEq_norm mdl qmdl q a _ _ rfl rfl hq ha (qmdl_eq q a mdl qmdl hmdl hqmdl hc mdl_tables_agree), pyEq_norm_eq q a hc hh]
+
+/-- the same for later atoms: atom and bond -/
+theorem mask_bond_eq_pyEq (q : QAtom) (qb : QBond) (a : MAtom) (b : MBond) (mdl qmdl : Nat)
+    (hmdl : mdlOf a.z = some mdl) (hqmdl : qmdlFor q = .ok qmdl)
+    (hq : QDom q) (ha : ADom mdl a) (hb : BDom qb b) (hc : NoHeavyClash q a) (hh : HKnown q a) :
+    nextOk ⟨(qWords qmdl q (some qb)).v1, (qWords qmdl q (some qb)).v2, (qWords qmdl q (some qb)).v3, (qWords qmdl q (some qb)).v4, 0, 0, 0, 0, 0⟩
+           (bondWord (atomWords mdl a).v1 b)
+           ⟨(atomWords mdl a).v1, (atomWords mdl a).v2, (atomWords mdl a).v3, (atomWords mdl a).v4, 0, 0, 0⟩ =
+      (pyEq q a && bondEq qb b) := by
+  have h := mask_bond_eq_pyEq_norm mdl qmdl q qb a b
+    ⟨(qWords qmdl q (some qb)).v1, (qWords qmdl q (some qb)).v2, (qWords qmdl q (some qb)).v3, (qWords qmdl q (some qb)).v4, 0, 0, 0, 0, 0⟩
+    ⟨(atomWords mdl a).v1, (atomWords mdl a).v2, (atomWords mdl a).v3, (atomWords mdl a).v4, 0, 0, 0⟩
+    rfl rfl hq ha hb (qmdl_eq q a mdl qmdl hmdl hqmdl hc mdl_tables_agree)
+  rw [pyEq_norm_eq q a hc hh] at h
+  exact h
+
+/-- the full-strength statement the property text asks for ("every element 1–118", any hydrogen state, any `h` value the query API
+    accepts, any ring size): **false** for the current code — `Findings/C09.lean` proves `¬ MaskEqPyEqFull` from four witnesses
+    (Lv/Ts, unknown H, h5, ring 66). `mask_eq_pyEq` above is the `_partial` with exactly these classes excluded. -/
+def MaskEqPyEqFull : Prop :=
+  ∀ (q : QAtom) (a : MAtom) (mdl qmdl : Nat), mdlOf a.z = some mdl → qmdlFor q = .ok qmdl → QApi q → AApi mdl a →
+    rootOk ⟨(qWords qmdl q none).v1, (qWords qmdl q none).v2, (qWords qmdl q none).v3, (qWords qmdl q none).v4, 0, 0, 0, 0, 0⟩
+           ⟨(atomWords mdl a).v1, (atomWords mdl a).v2, (atomWords mdl a).v3, (atomWords mdl a).v4, 0, 0, 0⟩ = pyEq q a
 
 end ChythonModel.Props.C09
